@@ -107,8 +107,41 @@ def coverage_actions(text):
     return res
 
 
+def apalache_check(ctx, m):
+    """Symbolic bounded check with Apalache (SMT): m = dict(engine="apalache", module, name, maxn, length, inv)."""
+    src = open(os.path.join(SPEC, "apalache", m["module"] + ".tla")).read()
+    mod = m["name"]
+    src = re.sub(r"MODULE %s\b" % m["module"], "MODULE " + mod, src)
+    src = re.sub(r"^MAXN == \d+", "MAXN == %d" % m["maxn"], src, flags=re.M)
+    path = os.path.join(ctx["dir"], mod + ".tla")
+    with open(path, "w") as f:
+        f.write(src)
+    out_path = os.path.join(ctx["dir"], "apalache_%s.out" % mod)
+    cmd = ["apalache-mc", "check", "--length=%d" % m["length"], "--inv=%s" % m.get("inv", "Inv"),
+           "--out-dir=" + os.path.join(ctx["dir"], "apalache_out"), path]
+    t0 = time.time()
+    with open(out_path, "w") as fo:
+        try:
+            rc = subprocess.run(cmd, cwd=ctx["dir"], stdout=fo, stderr=subprocess.STDOUT, timeout=m.get("timeout", 1500)).returncode
+        except subprocess.TimeoutExpired:
+            rc = -9
+    secs = time.time() - t0
+    text = open(out_path, errors="replace").read()
+    shutil.rmtree(os.path.join(ctx["dir"], "apalache_out"), ignore_errors=True)
+    res = dict(name=mod, module=m["module"], engine="apalache (SMT, symbolic integer contents)", generated=0, distinct=0, seconds=round(secs, 1),
+               constants=dict(MAXN=m["maxn"], length=m["length"]), out=out_path, ok="The outcome is: NoError" in text)
+    if not res["ok"]:
+        if "The outcome is: Error" in text and "invariant" in text:
+            res["violation"] = True
+        else:
+            raise ToolError("apalache failed on %s (rc=%s, see %s)" % (mod, rc, out_path))
+    return res
+
+
 def model_check(ctx, m):
     """m: dict(module, name, cfg{}, emit(bool), workers, expect('ok'|'violation'))"""
+    if m.get("engine") == "apalache":
+        return apalache_check(ctx, m)
     tag = m["name"]
     cfg_path = os.path.join(ctx["dir"], tag + ".cfg")
     write_cfg(cfg_path, m["cfg"])
